@@ -77,3 +77,10 @@ TEXT["C02"] = {
     "note": "trusts the harness encoder/parser for the hand-assembled inputs; stack size pinned to 8 MiB so that recursion findings are keyed on depth",
     "technique": "totality monitors (panic/abort/hang/allocation) + re-encode oracle over random, mutated and hand-assembled encodings",
 }
+TEXT["C07"] = {
+    "level": ("The machine's real resource use is observed through the off-by-default hook on every run of generated nesting-heavy programs (successful and failing), in an assertion-enabled and a plain "
+              "release build, and the hard-limit refusal is checked on enumerated programs whose true bounds straddle the limits (including bounds that overflow machine integers)."),
+    "design_ref": "DESIGN.md section 5, C07",
+    "note": "trusts the hook (src/bit_machine: verif_stats / verif_take_frame_oob) and the u128 bound re-computation in harness/src/c07.rs",
+    "technique": "invariant hook (high-water marks, frame-bounds counter) + allocation monitor over nesting-biased programs and limit bombs, two build profiles",
+}
